@@ -595,6 +595,7 @@ func main() {
 	translateSqrtFp(*repo, writeImp)
 	translateTranscript(*repo, writeImp)
 	translateCRS(*repo, writeImp)
+	translateInverse(*repo, writeImp)
 	fmt.Println("extract: ok")
 }
 
